@@ -371,7 +371,7 @@ func init() {
 			return s
 		},
 		Run:  c06Run,
-		Rule: "expression trees over the pool {0,1,2,7,-3 (variable),1.5,2.0,\"a\",\"b\",\"\",true,false,nil} and all 13 binary operators + '!': every depth-1 tree; every (a∘b)∘c and a∘(b∘c) for all operator pairs and all operand triples; every (a∘b)∘(c∘d) for all operator triples over a reduced pool; the depth-3 chains a∘((b∘c)∘d), ((a∘b)∘c)∘d, a∘(b∘(c∘d)) for all operator triples over a pool of 3 (5 thorough); '!' applied to leaves and subtrees. Each tree is printed with minimal parentheses under the stated precedence table, with full parentheses, with redundant parentheses around every leaf, and with recording operands (short-circuit observation), rendered on the real code and compared with a reference evaluator in Go. Same-spelling literals: 14 programs mixing an int / float / bool literal with a string literal of the same characters in both orders (each keeps its kind). Regex match: 29 (subject, pattern) pairs incl. alternation, anchors, classes, quantifiers, escapes, as literal / variable / concatenation, against Go's regexp. Printed form: \"v=\" + x equals \"v=\" followed by what <%= x %> prints, for 16 numeric / boolean operands incl. floats that print in exponent form. Number spellings: every pair of literals from {5, 05, 0.5, .5, 2.0, 10.25, .25} with + * / < == > written with spaces, tight (a∘b), parenthesised tight ((a)∘(b)) and as array elements, against Go arithmetic on the same values. Unspecified coercions (bool op non-bool, string compared with non-string, bool+bool) are only checked for totality. Non-trivial: tree has at least two operators.",
+		Rule: "expression trees over the pool {0,1,2,7,-3 (variable),1.5,2.0,\"a\",\"b\",\"\",true,false,nil} and all 13 binary operators + '!': every depth-1 tree; every (a∘b)∘c and a∘(b∘c) for all operator pairs and all operand triples; every (a∘b)∘(c∘d) for all operator triples over a reduced pool; the depth-3 chains a∘((b∘c)∘d), ((a∘b)∘c)∘d, a∘(b∘(c∘d)) for all operator triples over a pool of 3 (5 thorough); '!' applied to leaves and subtrees. Each tree is printed with minimal parentheses under the stated precedence table, with full parentheses, with redundant parentheses around every leaf, and with recording operands (short-circuit observation), rendered on the real code and compared with a reference evaluator in Go. Same-spelling literals: 14 programs mixing an int / float / bool literal with a string literal of the same characters in both orders (each keeps its kind). Big integers: 12 comparisons / sums / products / quotients around 2^53 and MaxInt (exact). Regex match: 29 (subject, pattern) pairs incl. alternation, anchors, classes, quantifiers, escapes, as literal / variable / concatenation, against Go's regexp. Printed form: \"v=\" + x equals \"v=\" followed by what <%= x %> prints, for 16 numeric / boolean operands incl. floats that print in exponent form. Number spellings: every pair of literals from {5, 05, 0.5, .5, 2.0, 10.25, .25} with + * / < == > written with spaces, tight (a∘b), parenthesised tight ((a)∘(b)) and as array elements, against Go arithmetic on the same values. Unspecified coercions (bool op non-bool, string compared with non-string, bool+bool) are only checked for totality. Non-trivial: tree has at least two operators.",
 		Bound: func(th bool) string {
 			if th {
 				return "depth-2 trees (4-leaf shape over a pool of 7 operands, 3-leaf shapes over all 13) and depth-3 chains over a pool of 5"
@@ -484,6 +484,22 @@ func c06Spellings(t *engine.T) {
 				}
 				return "error", nil
 			}
+			if err != nil || out != c.want {
+				return "", engine.Failf("mismatch", "expected %q, got %q / %v", c.want, out, err)
+			}
+			return "value", nil
+		})
+	}
+	// integer comparison and arithmetic are exact at every magnitude
+	for _, c := range []struct{ src, want string }{
+		{`<%= 9007199254740993 == 9007199254740992 %>`, "false"}, {`<%= 9007199254740993 > 9007199254740992 %>`, "true"}, {`<%= 9007199254740993 != 9007199254740992 %>`, "true"},
+		{`<%= 9223372036854775806 < 9223372036854775807 %>`, "true"}, {`<%= 9223372036854775807 <= 9223372036854775806 %>`, "false"}, {`<%= 9223372036854775807 >= 9223372036854775807 %>`, "true"},
+		{`<%= 9007199254740992 + 1 %>`, "9007199254740993"}, {`<%= 9007199254740993 - 1 == 9007199254740992 %>`, "true"}, {`<%= 4611686018427387904 / 2 * 2 == 4611686018427387904 %>`, "true"},
+		{`<%= 9007199254740993 / 3 %>`, "3002399751580331"}, {`<%= 3037000499 * 3037000499 %>`, "9223372030926249001"}, {`<%= 1000000007 * 1000000009 > 1000000007 * 1000000008 %>`, "true"},
+	} {
+		c := c
+		t.Case("big integers "+q(c.src), true, func() (string, *engine.Fail) {
+			out, err := Render(c.src, plush.NewContext())
 			if err != nil || out != c.want {
 				return "", engine.Failf("mismatch", "expected %q, got %q / %v", c.want, out, err)
 			}
